@@ -23,8 +23,8 @@ var c05Table = []c05Construct{
 	{"conan", "caret", []int{1, 2, 3}, []string{""}},
 	{"gem", "pessimistic", []int{1, 2, 3}, []string{""}},
 	{"hex", "pessimistic", []int{2, 3}, []string{"", "-{n}"}},
-	{"pypi", "compatible", []int{2, 3}, []string{""}},
-	{"pypi", "prefix", []int{1, 2}, []string{""}},
+	{"pypi", "compatible", []int{2, 3}, []string{"", ".post{d}"}},
+	{"pypi", "prefix", []int{1, 2, 3}, []string{""}},
 }
 
 func c05Probes(eco, tier string) []string {
